@@ -27,7 +27,8 @@ RULE = (
     "invariants with a packing witness. Non-trivial = at least two operations "
     "share the decoder or an objective object and a slack pair, a snapped "
     "coordinate or a repeated evaluation occurred; distinct = distinct "
-    "scenario-document digests.")
+    "scenario-document digests."
+    ' Further dimensions: decodes that fail half-way between valid ones, vector lengths that vary per decode, a seed derivation that fails once, a differently configured objective used in turns, and two caller threads sharing one decoder under the line-event scheduler.')
 COMPONENTS = {
     "real": ["InstanceSpace, InstanceDecoder.decode/get_x_dim",
              "instgen.errors.Errors, Hardness, ErrorsAndHardness (nested seeded "
